@@ -243,7 +243,7 @@ func driveCR(p *Plan, shard int, w *Writer, t *codec.Table) {
 
 	// (4) seeded byte-level mutations of valid texts through every reader
 	rng := rand.New(rand.NewSource(p.Seed*7919 + int64(shard)))
-	var seeds []struct{ kind, text string }
+	var seeds, decorated []struct{ kind, text string }
 	fam := loadFamily(p.Universe, "deep")
 	for i := 0; i < len(fam) && i < 40; i++ {
 		a, b := fam[i].D, fam[(i*7+3)%len(fam)].D
@@ -264,6 +264,21 @@ func driveCR(p *Plan, shard int, w *Writer, t *codec.Table) {
 			return drive.Res{St: "ok"}
 		})
 	}
+	// the valid texts once more in other clothes: byte-order mark (also alone on the first line), CRLF line ends,
+	// leading blank lines, trailing blanks, a NUL at the end, no final newline
+	for i, n := 0, len(seeds); i < n; i++ {
+		sd := seeds[i]
+		if i%3 != 0 && sd.kind != "diff" {
+			continue
+		}
+		for _, deco := range []string{"\ufeff" + sd.text, "\ufeff\n" + sd.text, strings.ReplaceAll(sd.text, "\n", "\r\n"),
+			"\n\n" + sd.text, " " + sd.text, sd.text + " \t", sd.text + "\x00", strings.TrimSuffix(sd.text, "\n"), sd.text + "\ufeff"} {
+			decorated = append(decorated, struct{ kind, text string }{sd.kind, deco})
+		}
+	}
+	for _, k := range []string{"diff", "patch", "merge", "json", "yaml"} {
+		decorated = append(decorated, struct{ kind, text string }{k, "\ufeff"}, struct{ kind, text string }{k, "\ufeff\n"}, struct{ kind, text string }{k, "\r\n"})
+	}
 	// YAML that is not JSON: non-finite numbers, anchors and aliases (also recursive), tags, keys that are not strings,
 	// timestamps, merge keys, documents and directives
 	for _, y := range yamlSpecials {
@@ -274,18 +289,25 @@ func driveCR(p *Plan, shard int, w *Writer, t *codec.Table) {
 	if !quick {
 		nmut = 6000
 	}
-	for c := -len(yamlSpecials); c < nmut; c++ {
+	fixed := append(append([]struct{ kind, text string }{}, decorated...), func() []struct{ kind, text string } {
+		var o []struct{ kind, text string }
+		for _, y := range yamlSpecials {
+			o = append(o, struct{ kind, text string }{"yaml", y})
+		}
+		return o
+	}()...)
+	for c := -len(fixed); c < nmut; c++ {
 		if c >= 0 && chunkN > 1 && c%chunkN != chunkI {
 			rng.Intn(len(seeds)) // keep the generator in step
 			continue
 		}
 		var sd struct{ kind, text string }
 		if c < 0 {
-			// every special document once as it is (by one shard and in the first chunk only)
+			// every special / decorated text once as it is (by one shard and in the first chunk only)
 			if shard != (-c)%p.Shards || chunkI != 0 {
 				continue
 			}
-			sd = struct{ kind, text string }{"yaml", yamlSpecials[-c-1]}
+			sd = fixed[-c-1]
 		} else {
 			sd = seeds[rng.Intn(len(seeds))]
 		}
@@ -365,7 +387,7 @@ func driveCR(p *Plan, shard int, w *Writer, t *codec.Table) {
 				if err != nil {
 					break
 				}
-				c2 := targets[(c+k*5)%len(targets)]
+				c2 := targets[c2idx(c+k*5, len(targets))]
 				_, ra := v.Patch(c2, x, false)
 				w.Emit(shard, Rec{"sess": sess, "op": "Apply", "c": c2, "res": ra})
 			}
